@@ -34,7 +34,9 @@ floats = st.one_of(st.integers(-4000, 4000).map(lambda k: k / 8.0), st.integers(
                    st.tuples(st.floats(-9, 9), st.booleans()).map(lambda t: (10.0 ** t[0]) * (-1 if t[1] else 1)), st.sampled_from([0.5, -0.5, 0.1, 2.5]))
 numtext = st.one_of(st.integers(-999, 999).map(str), st.integers(0, 99).map(lambda k: '+%d' % k),
                     st.tuples(st.integers(-99, 99), st.integers(0, 99)).map(lambda t: '%d.%02d' % t), st.integers(1, 99).map(lambda k: '.%d' % k), st.sampled_from(['12', '-4', '+3', '1.5', '.5', '0']))
-badtext = st.one_of(st.just(''), st.text(st.sampled_from('qxzkwvg_!?'), min_size=1, max_size=8).filter(lambda s: s[0] not in '_'), st.sampled_from(['qxz', 'k!', 'wv?g']))
+badtext = st.one_of(st.just(''), st.text(st.sampled_from('qxzkwvg_!?'), min_size=1, max_size=8).filter(lambda s: s[0] not in '_'), st.sampled_from(['qxz', 'k!', 'wv?g']),
+                     # text that contains a number without spelling one (and that a lenient date reader might be tempted by)
+                     st.sampled_from(['x1', '12abc', '3 apples', '10 km', 'Q3', 'room 5', 'v2.0', '#5', 'abc123', 'a1b2', '5x', 'no 7', '7up']))
 days = st.tuples(st.one_of(st.integers(rd.MAR1_ORD, rd.LAST_ORD), st.integers(rd.MAR1_ORD, 745000), st.sampled_from([737383, 734787, rd.MAR1_ORD])), st.just(0)).map(_dt)
 datetimes = st.tuples(st.integers(rd.MAR1_ORD, 745000), st.integers(1, 86399999)).map(_dt)
 isotext = st.tuples(st.integers(rd.MAR1_ORD, 745000), st.sampled_from([None, ' ', 'T']), st.integers(0, 86399)).map(
